@@ -191,6 +191,15 @@ def run(ctx, replay=None):
             for tol in tols:
                 jobs.append((tid, vi, cls, A, lam, budgets, tol))
                 tid += len(budgets)
+    # sizes at which the AED heuristics switch their factor (n <= 20, <= 50, <= 75, above): two or three sweeps only -
+    # the similarity holds whether or not the iteration converged
+    rng_big = np.random.default_rng(ctx.seed + 4242)
+    for nb in ((24, 52, 78) if thorough else (24, 52)):
+        Ab = rng_big.standard_normal((nb, nb, 4))
+        for vi, (vname, _) in enumerate(VARIANTS):
+            if vname in ("unified:aed", "unified:ds", "unified:aed:noshifts"):
+                jobs.append((tid, vi, "size-%d" % nb, Ab, None, [2, 3], 1e-10))
+                tid += 2
     outs = par.pmap(_job, jobs)
     events = []
     meta = {}
